@@ -28,7 +28,31 @@ def history_pool():
     P.append(("many-locals", "\n".join("v%d := %d" % (i, i) for i in range(200)) + "\nreturn v0 / 0", 0))
     return P
 
+def composed_history(rng):
+    """a chain of frames, each leaving some per-frame state behind (a frame re-used by a discarded or returned self
+    tail call, open try handlers, being inside a catch or finally block), the innermost ending the run abnormally"""
+    depth = rng.randrange(1, 5)
+    term, ms = rng.choice([("throw \"x\"", 0), ("return [][1]", 0), ("return gopanic()", 0), ("return [1, goindex()]", 0),
+                           ("for { }", 15), ("var r\nr = func(n) { return r(n + 1) + 1 }\nreturn r(0)", 0), ("return 1 / 0", 0)])
+    lines = ["global(gopanic, goindex)", "f%d := func(n) {\n%s\n}" % (depth + 1, term)]
+    styles = []
+    for i in range(depth, 0, -1):
+        st = rng.choice(["plain", "tail-discard", "tail-return", "in-try", "in-finally", "in-catch", "loop-try"])
+        styles.append(st)
+        nxt = "f%d" % (i + 1)
+        if st == "plain": body = "x := n\nreturn %s(n) + x" % nxt
+        elif st == "tail-discard": body = "if n <= 0 { return %s(0) }\nf%d(n - 1)" % (nxt, i)
+        elif st == "tail-return": body = "if n <= 0 { return %s(0) }\nreturn f%d(n - 1)" % (nxt, i)
+        elif st == "in-try": body = "try { return %s(n) } finally { z := 1 }" % nxt
+        elif st == "in-finally": body = "try { z := 1 } finally { %s(n) }" % nxt
+        elif st == "in-catch": body = "try { throw 1 } catch e { return %s(n) }" % nxt
+        else: body = "for i := 0; i < 3; i++ { try { if i == 1 { continue }; if i == 2 { %s(n) } } finally { y := i } }" % nxt
+        lines.append("var f%d\nf%d = func(n) {\n%s\n}" % (i, i, body))
+    lines.append("return f1(%d)" % rng.randrange(0, 4))
+    return ("composed:" + "/".join(reversed(styles)) + ":" + term.split("\n")[0][:12], "\n".join(lines), ms)
+
 OBS = [
+ ("g1 := func(a) { return a + 1 }\ng2 := func(a) { return g1(a) * 2 }\ng3 := func(a) { return g2(a) + g1(a) }\ng4 := func(a) { try { return g3(a) } finally { q := 0 } }\ng5 := func(a) { return g4(a) - g3(a) }\nreturn [g1(1), g2(2), g3(3), g4(4), g5(5)]", []),
  ("param (a, ...b)\nx := 0\nfor i := 0; i < 5; i++ { x += i }\nf := func() { return x + a }\nreturn [f(), b]", [["i", "7"], ["i", "8"]]),
  ("m := import(\"m1\")\nreturn [m.next(), m.next()]", []),
  ("param (a, b, c)\nreturn [a, b, c]", [["i", "1"]]),
@@ -39,13 +63,13 @@ OBS = [
 ]
 
 def run(rep, br, proofs, rng, tier):
-    n = 160 if tier == "quick" else 3000
+    n = 400 if tier == "quick" else 6000
     P = history_pool()
     g = proggen.Gen(rng, max_depth=2, modules=("m1",))
     cases = []
     for i in range(n):
         k = rng.choice([1, 1, 2, 3, 4])
-        hist = [rng.choice(P) for _ in range(k)]
+        hist = [composed_history(rng) if rng.random() < .5 else rng.choice(P) for _ in range(k)]
         if rng.random() < .5: obs, args = rng.choice(OBS)
         else: obs, args = g.program(), []
         rec = rng.choice(["0", "1"])
@@ -65,7 +89,9 @@ def run(rep, br, proofs, rng, tier):
         if not out.startswith("(history"): fails.append((c, "unexpected: " + out[:200])); continue
         sx = vlib.parse_sexp(out)
         used, again, fresh, unch = vlib.sexp_str(sx[2][1]), vlib.sexp_str(sx[3][1]), vlib.sexp_str(sx[4][1]), sx[5]
-        for hname in c["hist"]: kinds[hname] = kinds.get(hname, 0) + 1
+        for hname in c["hist"]:
+            hname = hname.split(":")[0] + (":" + hname.split(":")[2] if hname.startswith("composed") else "")
+            kinds[hname] = kinds.get(hname, 0) + 1
         if "(timeout)" in fresh: continue
         compared += 1
         if used != fresh:
@@ -78,7 +104,7 @@ def run(rep, br, proofs, rng, tier):
         rep.violation({"property": "C07", "kind": "oracle", "why": why, "case": c["line"][:3000], "script": c["obs"], "history": c["hist"]})
     rep.coverage.update({
         "evaluations": len(cases), "distinct_nontrivial": compared,
-        "rule": "histories of 1-4 runs on one VM drawn from 16 termination shapes (return, closures left on the stack, uncaught error at depth 0 and 200, errors inside nested try/finally, recovered and escaping Go callback panics, frame overflow, value-stack overflow by recursion and by a wide literal, abort of loops, module cache, unfinished try in a loop, 200 locals), each optionally followed by Clear, recovery on or off; then an observed script (fixed shapes with parameters, modules, recursion, try, closures, or a generated program) is run twice on the used VM and once on a new VM; non-trivial = the three outcomes and the Bytecode digests were compared",
+        "rule": "histories of 1-4 runs on one VM, half of them composed (a chain of 1-4 frames, each leaving per-frame state behind: a frame re-used by a discarded or returned self tail call, open try handlers, inside catch / finally / a loop with an unfinished try; the innermost frame ends the run by throw, runtime error, Go callback panic, abort, frame overflow), half drawn from 16 fixed termination shapes (return, closures left on the stack, uncaught error at depth 0 and 200, errors inside nested try/finally, recovered and escaping Go callback panics, frame overflow, value-stack overflow by recursion and by a wide literal, abort of loops, module cache, unfinished try in a loop, 200 locals), each optionally followed by Clear, recovery on or off; then an observed script (fixed shapes with parameters, modules, recursion, try, closures, or a generated program) is run twice on the used VM and once on a new VM; non-trivial = the three outcomes and the Bytecode digests were compared",
         "samples": [cases[0]["line"][:500]],
         "history_kinds": kinds, "oracle_failures": len(fails)})
 
